@@ -41,9 +41,47 @@ fn bok2(l: &BOpinion<V>, r: &BOpinion<V>) -> Out {
     Out::Ok(s)
 }
 
-fn op_blaw(ints: &[i64], sc: &[V]) -> Out {
+/// Variant token `p`: after the result, `BOpinion::projection()` (the METHOD's own answer) of every operand and of the
+/// result.  Nothing is appended to an `err`.
+fn bres_p(r: Result<BOpinion<V>, InvalidValueError>, operands: &[&BOpinion<V>], with_p: bool) -> Out {
+    match r {
+        Ok(w) => {
+            let mut s = String::new();
+            bdump(&w, &mut s);
+            if with_p {
+                for o in operands {
+                    o.projection().dump(&mut s);
+                }
+                w.projection().dump(&mut s);
+            }
+            Out::Ok(s)
+        }
+        Err(e) => Out::Err(e.0),
+    }
+}
+
+fn op_blaw(ints: &[i64], sc: &[V], alias: bool) -> Out {
     need!(ints.len() == 1 && sc.len() == 12);
     let (x, y, z) = (bop(&sc[..4]), bop(&sc[4..8]), bop(&sc[8..]));
+    if alias {
+        // `alias`: y IS x (the same object on both sides of every call that takes x and y); y's scalars are ignored
+        let (l, r) = match ints[0] {
+            0 => (x.mul(&x), x.mul(&x)),
+            1 => (x.mul(&x).mul(&z), x.mul(&x.mul(&z))),
+            2 => (x.comul(&x), x.comul(&x)),
+            3 => (x.comul(&x).comul(&z), x.comul(&x.comul(&z))),
+            4 => {
+                let nx = bneg(&x);
+                (nx.comul(&nx), bneg(&x.mul(&x)))
+            }
+            5 => {
+                let nx = bneg(&x);
+                (nx.mul(&nx), bneg(&x.comul(&x)))
+            }
+            _ => return Out::Unsup,
+        };
+        return bok2(&l, &r);
+    }
     let (l, r) = match ints[0] {
         0 => (x.mul(&y), y.mul(&x)),
         1 => (x.mul(&y).mul(&z), x.mul(&y.mul(&z))),
@@ -78,7 +116,7 @@ fn op_bdeduce_sym(ints: &[i64], sc: &[V]) -> Out {
 }
 
 // binomial fusion operator vs the multinomial one on the converted operands
-fn op_bvs(ints: &[i64], sc: &[V]) -> Out {
+fn op_bvs(ints: &[i64], sc: &[V], alias: bool) -> Out {
     need!(ints.len() == 1 && sc.len() == 9);
     let fo = match ints[0] {
         0 => FuseOp::ACm,
@@ -90,13 +128,15 @@ fn op_bvs(ints: &[i64], sc: &[V]) -> Out {
     // multinomial side first (it never validates), so that a recorded `rej` belongs to L
     let mx = Opinion1d::<V, 2>::from(bop(&sc[..4]));
     let my = Opinion1d::<V, 2>::from(bop(&sc[4..8]));
-    let mr: Opinion1d<V, 2> = fo.fuse(&mx, &my);
+    // `alias`: the SAME object twice on both sides (y's scalars are ignored)
+    let mr: Opinion1d<V, 2> = if alias { fo.fuse(&mx, &mx) } else { fo.fuse(&mx, &my) };
     let r = BOpinion::<V>::from(mr);
     let (x, y) = (bop(&sc[..4]), bop(&sc[4..8]));
+    let yr: &BOpinion<V> = if alias { &x } else { &y };
     let l = match ints[0] {
-        0 => x.cfuse(&y),
-        1 => x.afuse(&y, g),
-        _ => x.wfuse(&y, g),
+        0 => x.cfuse(yr),
+        1 => x.afuse(yr, g),
+        _ => x.wfuse(yr, g),
     };
     match l {
         Ok(l) => bok2(&l, &r),
@@ -108,11 +148,133 @@ fn op_bvs(ints: &[i64], sc: &[V]) -> Out {
     }
 }
 
+/// Every conversion path between `BOpinion` and `Opinion1d<_, 2>` (src/convert.rs) and the simplex view (src/bi.rs):
+/// `ok O(2) O(2) B B B B S(2) O(2) p p[2] p`, see PROTOCOL.md.
+fn op_bconv_all(ints: &[i64], sc: &[V]) -> Out {
+    need!(ints.is_empty() && sc.len() == 4);
+    let mut s = String::new();
+    // binomial -> multinomial: From::from and Into::into
+    let o_from = Opinion1d::<V, 2>::from(bop(sc));
+    let o_into: Opinion1d<V, 2> = bop(sc).into();
+    o_from.dump(&mut s);
+    o_into.dump(&mut s);
+    // multinomial -> binomial: by value (from / into) and by reference (from / into)
+    let b_val = BOpinion::<V>::from(o_from.clone());
+    let b_val_into: BOpinion<V> = o_from.clone().into();
+    let b_ref = BOpinion::<V>::from(&o_from);
+    let b_ref_into: BOpinion<V> = (&o_from).into();
+    bdump(&b_val, &mut s);
+    bdump(&b_val_into, &mut s);
+    bdump(&b_ref, &mut s);
+    bdump(&b_ref_into, &mut s);
+    // the simplex of a binomial opinion seen as a binary multinomial simplex
+    let x = bop(sc);
+    let sv: &Simplex1d<V, 2> = <&Simplex1d<V, 2>>::from(&x.simplex);
+    sv.dump(&mut s);
+    // second trip: the by-reference result converted again
+    let o_again = Opinion1d::<V, 2>::from(BOpinion::<V>::from(&o_from));
+    o_again.dump(&mut s);
+    // projections: the binomial method, the multinomial trait on the converted opinion, the method on the way back
+    x.projection().dump(&mut s);
+    let pm: [V; 2] = Projection::projection(&o_from);
+    pm.dump(&mut s);
+    b_ref.projection().dump(&mut s);
+    Out::Ok(s)
+}
+
+/// Comparisons with the DEFAULT tolerances (approx's macros with arguments left out): the opinion-level answer and the
+/// scalar type's own answer, with its own defaults, for b, d, u, a.  ints kind,maxulps; scalars x(4) y(4) t.
+fn op_bcmpd(ints: &[i64], sc: &[V]) -> Out {
+    need!(ints.len() == 2 && sc.len() == 9);
+    need!((0..=u32::MAX as i64).contains(&ints[1]));
+    let (x, y, t) = (bop(&sc[..4]), bop(&sc[4..8]), sc[8]);
+    let k = ints[0];
+    let mu = ints[1] as u32;
+    need!((1..=7).contains(&k));
+    macro_rules! cmp {
+        ($p:expr, $q:expr) => {
+            match k {
+                1 => approx::abs_diff_eq!($p, $q),
+                2 => approx::relative_eq!($p, $q),
+                3 => approx::ulps_eq!($p, $q),
+                4 => approx::relative_eq!($p, $q, max_relative = t),
+                5 => approx::ulps_eq!($p, $q, max_ulps = mu),
+                6 => approx::relative_eq!($p, $q, epsilon = t),
+                _ => approx::ulps_eq!($p, $q, epsilon = t),
+            }
+        };
+    }
+    let mut s = String::new();
+    let r: bool = cmp!(x, y);
+    r.dump(&mut s);
+    let cb: bool = cmp!(*x.b(), *y.b());
+    let cd: bool = cmp!(*x.d(), *y.d());
+    let cu: bool = cmp!(*x.u(), *y.u());
+    let ca: bool = cmp!(*x.a(), *y.a());
+    cb.dump(&mut s);
+    cd.dump(&mut s);
+    cu.dump(&mut s);
+    ca.dump(&mut s);
+    Out::Ok(s)
+}
+
+/// `==` of a multinomial opinion with ITSELF (the same object on both sides): `ok T|F x5` =
+/// `w.simplex == w.simplex`, `w == w`, `w.as_ref() == w.as_ref()`, `w.base_rate == w.base_rate`, and two
+/// `OpinionRef`s that borrow the same simplex and the same base-rate object.  One int: 1-D, n in 1..=4, families
+/// A M D N; two ints: 2-D, n0,n1 in 1..=3, families M D N.
+fn op_meq_alias(var: &[&str], ints: &[i64], sc: &[V]) -> Out {
+    let f = match var.first().map(|s| s.chars().collect::<Vec<_>>()) {
+        Some(c) if c.len() == 1 => c[0],
+        _ => return Out::Unsup,
+    };
+    macro_rules! answers {
+        ($w:ident, $T:ty) => {{
+            let w1: &Opinion<$T, V> = &$w;
+            let w2: &Opinion<$T, V> = &$w;
+            let r1: OpinionRef<$T, V> = OpinionRef::from((&$w.simplex, &$w.base_rate));
+            let r2: OpinionRef<$T, V> = OpinionRef::from((&$w.simplex, &$w.base_rate));
+            ok(&[
+                w1.simplex == w2.simplex,
+                *w1 == *w2,
+                w1.as_ref() == w2.as_ref(),
+                w1.base_rate == w2.base_rate,
+                r1 == r2,
+            ])
+        }};
+    }
+    if ints.len() == 2 {
+        let Some(&[n0, n1]) = us(ints, 1, 3).as_deref() else { return Out::Unsup };
+        need!(sc.len() == 2 * n0 * n1 + 1);
+        macro_rules! body2 {
+            (A $n0:tt $n1:tt) => { Out::Unsup };
+            ($F:ident $n0:tt $n1:tt) => {{
+                type T = c2!($F, X, $n0, Z, $n1, V);
+                let w: Opinion<T, V> = mk_o(sc);
+                answers!(w, T)
+            }};
+        }
+        return chain!(@ [fam f; n13 n0; n13 n1;] body2 []);
+    }
+    let Some(&[n]) = us(ints, 1, 4).as_deref() else { return Out::Unsup };
+    need!(sc.len() == 2 * n + 1);
+    macro_rules! body {
+        ($F:ident $n:tt) => {{
+            type T = c1!($F, X, $n, V);
+            let w: Opinion<T, V> = mk_o(sc);
+            answers!(w, T)
+        }};
+    }
+    chain!(@ [fam f; n14 n;] body [])
+}
+
 fn op_bi(op: &str, var: &[&str], ints: &[i64], sc: &[V]) -> Out {
     let has = |t: &str| var.iter().any(|v| *v == t);
     match op {
-        "bvs" => op_bvs(ints, sc),
-        "blaw" => op_blaw(ints, sc),
+        "bvs" => op_bvs(ints, sc, has("alias")),
+        "blaw" => op_blaw(ints, sc, has("alias")),
+        "bconv_all" => op_bconv_all(ints, sc),
+        "bcmpd" => op_bcmpd(ints, sc),
+        "meq_alias" => op_meq_alias(var, ints, sc),
         "bdeduce_sym" => op_bdeduce_sym(ints, sc),
         "bsimplex_new" => {
             need!(ints.is_empty() && sc.len() == 3);
@@ -143,29 +305,32 @@ fn op_bi(op: &str, var: &[&str], ints: &[i64], sc: &[V]) -> Out {
             let p: V = bop(sc).projection();
             ok(&p)
         }
+        // variant tokens (position >= 2): `alias` = the SAME object is passed as both operands (the second operand's
+        // scalars are ignored); `p` = the projection() METHOD's answers for x, y and the result are appended
         "bmul" | "bcomul" | "bcfuse" => {
             need!(ints.is_empty() && sc.len() == 8);
             let (x, y) = (bop(&sc[..4]), bop(&sc[4..]));
-            match op {
-                "bmul" => bok(&x.mul(&y)),
-                "bcomul" => bok(&x.comul(&y)),
-                _ => bres(x.cfuse(&y)),
-            }
+            let yr: &BOpinion<V> = if has("alias") { &x } else { &y };
+            let r = match op {
+                "bmul" => Ok(x.mul(yr)),
+                "bcomul" => Ok(x.comul(yr)),
+                _ => x.cfuse(yr),
+            };
+            bres_p(r, &[&x, yr], has("p"))
         }
         "bafuse" | "bwfuse" => {
             need!(ints.is_empty() && sc.len() == 9);
             let (x, y, g) = (bop(&sc[..4]), bop(&sc[4..8]), sc[8]);
-            if op == "bafuse" {
-                bres(x.afuse(&y, g))
-            } else {
-                bres(x.wfuse(&y, g))
-            }
+            let yr: &BOpinion<V> = if has("alias") { &x } else { &y };
+            let r = if op == "bafuse" { x.afuse(yr, g) } else { x.wfuse(yr, g) };
+            bres_p(r, &[&x, yr], has("p"))
         }
         "bdeduce" => {
             need!(ints.is_empty() && sc.len() == 11);
             let x = bop(&sc[..4]);
             let cond = [bsx(&sc[4..7]), bsx(&sc[7..10])];
-            bok(&x.deduce(&cond, sc[10]))
+            // `p`: x.projection() and the result's projection() are appended
+            bres_p(Ok(x.deduce(&cond, sc[10])), &[&x], has("p"))
         }
         "btrans_unc" | "btrans_bsr" => {
             need!(ints.is_empty() && sc.len() == 5);
